@@ -660,3 +660,37 @@ def ground_export(text, break_cycles=False, compact=False, fmt="pl"):
     from problog import get_evaluatable
     res = get_evaluatable().create_from(PrologString(out)).evaluate()
     return {"answers": {str(k): float(v) for k, v in res.items()}, "exported": out}
+
+
+# ------------------------------------------------------------------ C29 prepared database extension
+def extend_history(base_text, steps):
+    """steps: ['extend'] | ['add', clause_text] | ['q', level, atom_text]   (level 0 = base db, k = k-th extension)"""
+    from problog.program import PrologString
+    from problog.engine import DefaultEngine
+    from problog.logic import Term
+    from problog import get_evaluatable
+    from problog.errors import ProbLogError
+    from .pl import err_info
+    eng = DefaultEngine()
+    dbs = [eng.prepare(PrologString(base_text))]
+    out = []
+    for st in steps:
+        if st[0] == "extend":
+            dbs.append(dbs[-1].extend())
+            out.append({"op": "extend"})
+        elif st[0] == "add":
+            for cl in PrologString(st[1]):
+                dbs[-1] += cl
+            out.append({"op": "add"})
+        elif st[0] == "q":
+            db = dbs[st[1]]
+            try:
+                e2 = DefaultEngine()
+                lf = e2.ground_all(db, queries=[Term.from_string(st[2])], evidence=[])
+                res = get_evaluatable().create_from(lf).evaluate()
+                out.append({"op": "q", "answers": {str(k): float(v) for k, v in res.items()}})
+            except Exception as e:
+                info = err_info(e)
+                info["op"] = "q"
+                out.append(info)
+    return {"steps": out}
